@@ -35,14 +35,21 @@ FT_ENV = dict(os.environ, GOMAXPROCS="2")
 
 
 # ---------------------------------------------------------------- scripts
+HUGE_R = 64
+
+
 class Task:
     def __init__(self, send, T, R, discard, onerr, behs, cancels=None):
         self.send, self.T, self.R, self.discard, self.onerr, self.behs = send, T, R, discard, onerr, behs
         # cancels[i]: the handler of behaviour i cancels the dispatchers' parent context right before it returns
         self.cancels = list(cancels) if cancels else [False] * len(behs)
 
-    def tok(self):
-        return "%d,%d,%d,%d,%d|" % (self.send, self.T, self.R, int(self.discard), int(self.onerr)) + \
+    def tok(self, model=False):
+        # the model's retry count is a nat: a retry count beyond HUGE_R ("retry until success": the scripted behaviours
+        # end in a success) is passed to the model as the number of scripted attempts -- attempts stop at the first
+        # success (ants_attempts_bounded / ants_result_matches), so the model's answers do not depend on the excess
+        R = self.R if not (model and self.R > HUGE_R) else len(self.behs)
+        return "%d,%d,%d,%d,%d|" % (self.send, self.T, R, int(self.discard), int(self.onerr)) + \
                "|".join("%d:%d:%d:%d" % (d, int(h), v, e) + (":1" if c else "") for (d, h, v, e), c in zip(self.behs, self.cancels))
 
     def prompt(self):
@@ -274,7 +281,7 @@ def log_to_history(tasks, obs, hd_ties):
 
 
 def model_line(mode, urg, N, tasks, evtoks, tag="antsrun"):
-    return "%s %s %d %d %d %s %s" % (tag, mode, int(urg), N, len(tasks), " ".join(t.tok() for t in tasks), " ".join(evtoks))
+    return "%s %s %d %d %d %s %s" % (tag, mode, int(urg), N, len(tasks), " ".join(t.tok(model=True) for t in tasks), " ".join(evtoks))
 
 
 TASK_RE = re.compile(r"k=(\d+),(\w+),inv=(\d+),dec=(\d+),f=(\S+?),g=\[(.*?)\],oe=\[(.*?)\],rel=\[(.*?)\],pk=(-?\d+),B=(-?\d+),L=(-?\d+),hr=\[(.*?)\]$")
@@ -615,10 +622,34 @@ def gen_pcancel(rng):
     return N, tasks
 
 
+def gen_huge_retry(rng):
+    """'retry until success': R near the limits of int (2^63-1, 2^31-1, ...) with 1-3 scripted attempts, the last
+    of which succeeds in time; the earlier ones fail with an error or time out."""
+    N = rng.choice([1, 2])
+    tasks = []
+    now = 0
+    for i in range(rng.range(1, 3)):
+        T = rng.choice([1, 2]) * MS + 16 * rng.below(200) + 2
+        R = rng.choice([2 ** 63 - 1, 2 ** 63 - 1, 2 ** 63 - 2, 2 ** 62, 2 ** 32, 2 ** 31 - 1, 2 ** 31, HUGE_R + 1])
+        n = rng.range(1, 3)
+        behs = []
+        for a in range(n - 1):
+            b = gen_beh(rng, T, "prompt")
+            if b[3] == 0 and b[0] < T:            # make it a failing attempt
+                b = (b[0], b[1], b[2], rng.choice([3, 5, 9]))
+            behs.append(b)
+        behs.append((rng.choice([16, 48, T // 2, T - 16]), True, 40 + i, 0))
+        tasks.append(Task(now, T, R, False, rng.chance(4, 5), behs))
+        now += jit(rng, rng.choice([16, T, 3 * T])) or 16
+    return N, tasks
+
+
 def gen_script(rng, kind):
-    """kind: retry | burst | ties | prompt | stubborn | pcancel"""
+    """kind: retry | burst | ties | prompt | stubborn | pcancel | hugeR"""
     if kind == "pcancel":
         return gen_pcancel(rng)
+    if kind == "hugeR":
+        return gen_huge_retry(rng)
     N = rng.choice([1, 1, 2, 2, 3, 4])
     tasks = []
     now = 0
